@@ -702,7 +702,9 @@ impl<T: GseDecapMemory, C: CrcCalculator, MHEM: MandatoryHeaderExtensionManager>
 
         // check pdu buffer size
         let pdu_buffer_len = pdu_buffer.len();
-        if pdu_buffer_len + label_len + PROTOCOL_LEN + FRAG_ID_LEN + TOTAL_LENGTH_LEN < gse_len {
+        if pdu_buffer_len + label_len + header_ext_len + PROTOCOL_LEN + FRAG_ID_LEN + TOTAL_LENGTH_LEN
+            < gse_len
+        {
             self.last_label = None;
             // if the memory refuses the storage, it is handed to the caller inside the error
             if let Err(err) = self.memory.provision_storage(pdu_buffer) {
